@@ -503,38 +503,38 @@ type ObjInv struct {
 }
 
 type Lemma struct {
-	Name    string
-	Pkg     string
-	Params  []string
-	PTypes  []string
-	Req     []Clause
-	Ens     []Clause
-	Induct  string // induction variable ("" none)
-	Props   []string
-	Uses    []string
-	Hints   []string
+	Name   string
+	Pkg    string
+	Params []string
+	PTypes []string
+	Req    []Clause
+	Ens    []Clause
+	Induct string // induction variable ("" none)
+	Props  []string
+	Uses   []string
+	Hints  []string
 }
 
 type LockRef struct{ Pkg, Type, Mutex string }
 
 type Contracts struct {
 	LockOrders [][]LockRef
-	Funcs    map[string]*FuncContract // key pkg+"|"+name
-	Loops    map[string]*LoopContract // key pkg|func#n
-	Preds    map[string]*PredDef      // key name (global namespace)
-	GFields  []GhostField
-	GVars    []GhostVar
-	Policies []FieldPolicy
-	Monitors []*Monitor
-	ObjInvs  []*ObjInv
-	Atomics  []*AtomicObj
-	Lemmas   []*Lemma
-	Forwards []Forward
-	UFuns    []UFun
-	Axioms   []Clause
-	AxiomPkg []string
-	Files    []string
-	Scan     map[string]int // assumption scan: keyword -> count
+	Funcs      map[string]*FuncContract // key pkg+"|"+name
+	Loops      map[string]*LoopContract // key pkg|func#n
+	Preds      map[string]*PredDef      // key name (global namespace)
+	GFields    []GhostField
+	GVars      []GhostVar
+	Policies   []FieldPolicy
+	Monitors   []*Monitor
+	ObjInvs    []*ObjInv
+	Atomics    []*AtomicObj
+	Lemmas     []*Lemma
+	Forwards   []Forward
+	UFuns      []UFun
+	Axioms     []Clause
+	AxiomPkg   []string
+	Files      []string
+	Scan       map[string]int // assumption scan: keyword -> count
 }
 
 type UFun struct {
